@@ -543,18 +543,20 @@ OBLIGATIONS = [
                pre=["len(recs) <= nmax", "hsize >= 0", "now >= 0"], parts=_parts("nmax", 4, 6),
                timeout={"quick": 90, "thorough": 900}, symbolic="hsize, now, " + _REC),
     Obligation("gc_run", ob_run,
-               bounds="<=3 / <=6 unlocked files, every unit, force flag, one optional failing os.remove; limit from the environment or (<=2 files) from `--size` through to_history_tuple with an alias unit spelling",
+               bounds="<=3 / <=5 unlocked files, every unit, force flag, one optional failing os.remove; limit from the environment or (<=2 files) from `--size` through to_history_tuple with an alias unit spelling",
                pre=["len(recs) <= nmax", "hsize >= 0", "now >= 0", "-1 <= fail < nmax"],
                parts={"quick": [dict(nmax=3, unit=u, size_given=False) for u in range(4)] + [dict(nmax=2, unit=u, size_given=True, fail=-1) for u in (0, 1, 3)],
-                      "thorough": [dict(nmax=6, unit=u, size_given=False) for u in range(4)] + [dict(nmax=3, unit=u, size_given=True, fail=-1) for u in (0, 1, 3)]},
+                      "thorough": [dict(nmax=5, unit=u, size_given=False) for u in range(4)] + [dict(nmax=3, unit=u, size_given=True, fail=-1) for u in (0, 1, 3)]},
                timeout={"quick": 240, "thorough": 1200},
                symbolic="hsize, force, now, index of failing remove, " + _REC),
     Obligation("gc_files_filter", ob_files_filter,
-               bounds="exactly 0..2 (quick) / 0..3 (thorough) files, every (locked, unreadable) flag pattern; "
+               bounds="exactly 0..2 files, every (locked, unreadable) flag pattern (thorough: plus three patterns of 3 files); "
                       "size, ts0, ts1, ncmds, boot unbounded ints",
                pre=["len(recs) == len(flags)", "boot >= 0"],
                parts={"quick": [dict(flags=fl) for fl in _flagsets(2)],
-                      "thorough": [dict(flags=fl) for fl in _flagsets(3)]},  # unordered: the files are symbolic and symmetric
+                      "thorough": [dict(flags=fl) for fl in _flagsets(2)]  # unordered: the files are symbolic and symmetric
+                                  + [dict(flags=fl) for fl in (((False, False),) * 3, ((True, False), (False, False), (False, False)),
+                                                               ((True, False), (True, False), (False, True)))]},  # 3 files: three patterns (each ~25 min of CPU)
                timeout={"quick": 150, "thorough": 1500},
                symbolic="boot time, only_unlocked; per file (size, ts0, ts1, ncmds)"),
     Obligation("gc_end_to_end", ob_end_to_end,
